@@ -247,6 +247,10 @@ func TestC02Failover(t *testing.T) {
 		// what the requests look like (method, headers) is drawn per history: no clause of the statement depends on it
 		dress := lab.DrawDressPlan(rt)
 		nreq := 0
+		// what the backends' addresses look like (one host name each / one machine with many ports / ...)
+		lab.SetHostStyle(rapid.IntRange(0, lab.HostStyles-1).Draw(rt, "host_style"))
+		defer lab.SetHostStyle(0)
+		hostLabel := lab.HostStyleName()
 		n := rapid.IntRange(1, 6).Draw(rt, "n")
 		weights := make([]int, n)
 		for i := range weights {
@@ -565,7 +569,7 @@ func TestC02Failover(t *testing.T) {
 		if loaded {
 			labels = append(labels, "inflight-99plus")
 		}
-		sub.Case(map[string]any{"strategy": strategy, "weights": weights, "health": hc, "history": hist, "dress": dress}, partial > 0, append(labels, dress.Label())...)
+		sub.Case(map[string]any{"strategy": strategy, "weights": weights, "health": hc, "history": hist, "dress": dress, "hosts": hostLabel}, partial > 0, append(labels, dress.Label(), hostLabel)...)
 		sub.Count("probes", fn.TotalProbes())
 		sub.Count("requests-first-after-a-window-ended", afterExpiry)
 		sub.Count("requests", requests)
